@@ -10,6 +10,7 @@ git apply "$PATCH"
 cd /verif
 OUT=$(./check "$ID" "$TIER" 2>&1); RC=$?
 cd /repo && git checkout -- . && git clean -fdq -e verif_hooks.go >/dev/null 2>&1
+if [ $RC -eq 1 ] && ! echo "$OUT" | grep -q "^VIOLATION property="; then RC=3; fi
 case $RC in
   1) echo "DETECTED $ID $TIER $(echo "$OUT" | grep -A1 VIOLATION | head -2 | tr '\n' ' ' | cut -c1-400)";;
   0) echo "MISSED $ID $TIER";;
